@@ -1,4 +1,5 @@
 import AthlibVerif.Model.Perf
+import AthlibVerif.Lemmas.NatStr
 /-!
 # C12 — Performance validation returns plausible, well-formed marks or the given error
 
@@ -40,25 +41,15 @@ theorem C12_multi_range (t r : Str) (h : checkMulti t = .ok r) : ∃ p, pyInt t 
     · cases h
     · next hle => injection h with h; exact ⟨p, hp, by omega, h.symm⟩
 
-def pyIntIs (s : Str) (p : Nat) : Bool := match pyInt s with | .ok q => q == p | .error _ => false
+/-- decided on the regenerated digit blocks: the ten ASCII digits have their values and none is the point -/
+theorem ascii_digits : asciiDigitsOK = true := by decide +kernel
 
-/-- `str(p)` re-reads as `p` for every score up to 9999 (kernel-evaluated over all 10 000 values), hence
-    re-validating a returned multi-event score returns it unchanged -/
-theorem natStr_roundtrip_10000 : (List.range 10000).all (fun p => pyIntIs (natStr p) p) = true := by
-  decide +kernel
-
+/-- re-validating a returned multi-event score returns it unchanged (`int(str(p)) == p` for every `p`) -/
 theorem C12_multi_idempotent (t r : Str) (h : checkMulti t = .ok r) : checkMulti r = .ok r := by
   obtain ⟨p, _, hle, rfl⟩ := C12_multi_range t r h
-  have := List.all_eq_true.1 natStr_roundtrip_10000 p (List.mem_range.2 (by omega))
-  unfold pyIntIs at this
   unfold checkMulti
-  split at this
-  · next q hq =>
-    have hqp : q = p := by simpa using this
-    subst hqp
-    rw [hq]
-    simp [show ¬ q > 9999 by omega]
-  · cases this
+  rw [pyInt_natStr ascii_digits p]
+  simp [show ¬ p > 9999 by omega]
 
 /-- **Field events**: an accepted result is `"%0.2f"` of a distance not above 1.2 × the record -/
 theorem C12_field_format (d t g r : Str) (h : checkField d t g = .ok r) :
@@ -130,6 +121,40 @@ theorem timedCore_time (d t : Str) (h m c : Nat) (hr : timedCore d t = .time h m
     split at hr
     · cases hr
     · exact C12_timed_fields_below_60 _ _ _ _ _ _ _ h m c hr
+
+/-! ## read-back for every number; field results are stable -/
+
+
+/-- `int(str(n)) == n` for **every** `n` (no table) -/
+theorem C12_int_str_roundtrip (n : Nat) : pyInt (natStr n) = .ok n := pyInt_natStr ascii_digits n
+
+/-- **Field events are idempotent**: validating a returned distance again returns it unchanged — for every event,
+    gender and text (within the modelled two-decimal domain). -/
+theorem C12_field_idempotent (d t g r : Str) (h : checkField d t g = .ok r) : checkField d r g = .ok r := by
+  obtain ⟨n, dn, decs, hf, rfl, hl⟩ := C12_field_format d t g r h
+  have hfl := floatOf_fmt2 ascii_digits (n * 100 / dn)
+  have hnl : tooLarge d g (n * 100 / dn) 100 = false := by
+    unfold tooLarge at hl ⊢
+    split
+    · next rec hrec =>
+      rw [hrec] at hl
+      simp only [decide_eq_false_iff_not, Nat.not_lt] at hl ⊢
+      by_cases hdn : dn = 0
+      · subst hdn; simp
+      · have h1 : n * 100 / dn * dn ≤ n * 100 := Nat.div_mul_le_self _ _
+        generalize n * 100 / dn = q at h1 ⊢
+        have h3 : (q * 5) * dn ≤ (rec * 6) * dn := by
+          calc (q * 5) * dn = (q * dn) * 5 := by ac_rfl
+            _ ≤ (n * 100) * 5 := Nat.mul_le_mul_right _ h1
+            _ ≤ rec * 6 * dn := hl
+        have h4 := Nat.le_of_mul_le_mul_right h3 (Nat.pos_of_ne_zero hdn)
+        omega
+    · rfl
+  unfold checkField
+  simp only [hfl, hnl, show ¬ (2 > 2) by omega, if_false, Bool.false_eq_true]
+  have : n * 100 / dn * 100 / 100 = n * 100 / dn := Nat.mul_div_cancel _ (by omega)
+  rw [this]
+
 
 /-- Full statement of the remaining clauses (NOT proved here). -/
 def C12_statement : Prop :=
